@@ -386,12 +386,10 @@ class SuperSpeedStreamInEndpoint(Elaboratable):
                     # as an indication that we need to re-try the given packet.
                     with m.If(handshakes_in.retry_required | ~sequence_advancing):
 
-                        # In this case, we'll re-transmit the relevant data, either by sending another ZLP...
+                        # In this case, we'll re-transmit the relevant data, either by sending another ZLP
+                        # (with the same sequence number)...
                         with m.If(last_packet_was_zlp):
-                            m.d.comb += [
-                                interface.tx_zlp.eq(1),
-                                advance_sequence.eq(1),
-                            ]
+                            m.d.comb += interface.tx_zlp.eq(1)
 
                         # ... or by moving right back into sending a data packet.
                         with m.Else():
@@ -401,6 +399,9 @@ class SuperSpeedStreamInEndpoint(Elaboratable):
                     # Otherwise, if our ACK contains the next sequence number, then this is an acknowledgement
                     # of the previous packet [USB3.2r1: 8.12.1.2].
                     with m.Else():
+
+                        # The host expects our next packet to carry the next sequence number.
+                        m.d.comb += advance_sequence.eq(1)
 
                         # We no longer need to keep the data that's been acknowledged; clear it.
                         m.d.ss += read_fill_count.eq(0)
@@ -419,10 +420,10 @@ class SuperSpeedStreamInEndpoint(Elaboratable):
                             # and then continue waiting for the next ACK.
                             with m.If(is_in_token):
 
-                                # ... send a ZLP...
+                                # ... send a ZLP, which already carries our new sequence number...
                                 m.d.comb += [
-                                    interface.tx_zlp.eq(1),
-                                    advance_sequence.eq(1),
+                                    interface.tx_zlp              .eq(1),
+                                    interface.tx_sequence_number  .eq(next_sequence_number),
                                 ]
 
                                 # ... and clear the need to follow up with one, since we've just sent a short packet.
@@ -442,9 +443,6 @@ class SuperSpeedStreamInEndpoint(Elaboratable):
                         # ready ourselves for transmit.
                         packet_completing = in_stream.valid & (write_fill_count + 4 >= self._max_packet_size)
                         with m.Elif(~in_stream.ready | packet_completing):
-                            m.d.comb += [
-                                advance_sequence   .eq(1),
-                            ]
                             m.d.ss += [
                                 ping_pong_toggle   .eq(~ping_pong_toggle),
                                 read_stream_ended  .eq(0),
